@@ -417,7 +417,7 @@ static void wrappers(uint64_t N, unsigned reps) {
 
 void run_C09(void) {
   const int th = G.thorough;
-  const uint64_t exh_max = th ? 32768 : 8192;
+  const uint64_t exh_max = th ? 65536 : 8192;
   for (uint64_t N = 1; N <= 65536; N <<= 1) {
     if (N <= exh_max)
       exhaustive_kernels(N, N <= (th ? 4096 : 1024));
